@@ -83,9 +83,18 @@ pub struct OTag {
     pub k0: u8,
     pub k1: u8,
     pub klen: usize,
+    /// wrapping sum of the key bytes
+    pub ksum: u32,
     /// 0 Bool, 1 U64, 2 Float, 3 String
     pub kind: u8,
     pub val: u64,
+}
+pub fn key_sum(k: &[u8]) -> u32 {
+    let mut s = 0u32;
+    for b in k {
+        s = s.wrapping_mul(31).wrapping_add(*b as u32);
+    }
+    s
 }
 impl<O> Collected<O> {
     pub fn new() -> Self {
@@ -109,6 +118,7 @@ pub fn otag(abs: usize, t: &Tag) -> OTag {
         k0: if !k.is_empty() { k[0] } else { 0 },
         k1: if k.len() > 1 { k[k.len() - 1] } else { 0 },
         klen: k.len(),
+        ksum: key_sum(k),
         kind,
         val,
     }
@@ -291,4 +301,82 @@ pub fn ab_11<B: Block, I: Copy + SymVal, O: Copy + Bits, F: Fn(ReadStream<I>) ->
     a.forget();
     b.forget();
     (ao, bo)
+}
+
+/// A 2-input / 1-output block.
+pub struct Rig21<B, I1: Copy, I2: Copy, O: Copy> {
+    pub b: B,
+    pub txa: WriteStream<I1>,
+    pub txb: WriteStream<I2>,
+    pub rx: ReadStream<O>,
+    pub na: usize,
+    pub nb: usize,
+    pub out: Collected<O>,
+}
+impl<B: Block, I1: Copy, I2: Copy, O: Copy> Rig21<B, I1, I2, O> {
+    pub fn new<F: Fn(ReadStream<I1>, ReadStream<I2>) -> (B, ReadStream<O>)>(cap_in: usize, cap_out: usize, mk: &F) -> Self {
+        let (txa, ra) = new_stream_sized::<I1>(cap_in);
+        let (txb, rb) = new_stream_sized::<I2>(cap_in);
+        set_cap(cap_out);
+        let (b, rx) = mk(ra, rb);
+        Self { b, txa, txb, rx, na: 0, nb: 0, out: Collected::new() }
+    }
+    pub fn step(&mut self, a: &[I1], ta: &[ATag], bb: &[I2], tb: &[ATag], fa: usize, fb: usize, d: usize) -> Verdict {
+        feed(&self.txa, a, &mut self.na, fa, ta);
+        feed(&self.txb, bb, &mut self.nb, fb, tb);
+        drain(&self.rx, d, &mut self.out);
+        work_once(&mut self.b)
+    }
+    pub fn flush(&mut self, a: &[I1], ta: &[ATag], bb: &[I2], tb: &[ATag], rounds: usize) {
+        let mut idle = false;
+        for _ in 0..rounds {
+            let a0 = activity();
+            let f1 = feed(&self.txa, a, &mut self.na, usize::MAX, ta);
+            let f2 = feed(&self.txb, bb, &mut self.nb, usize::MAX, tb);
+            let d = drain(&self.rx, usize::MAX, &mut self.out);
+            let _ = work_once(&mut self.b);
+            idle = f1 == 0 && f2 == 0 && d == 0 && activity() == a0;
+        }
+        drain(&self.rx, usize::MAX, &mut self.out);
+        assert!(idle, "BOUND: block not quiescent after the flush rounds of this harness");
+    }
+}
+
+/// A 1-input / 2-output block.
+pub struct Rig12<B, I: Copy, O1: Copy, O2: Copy> {
+    pub b: B,
+    pub tx: WriteStream<I>,
+    pub rx1: ReadStream<O1>,
+    pub rx2: ReadStream<O2>,
+    pub next: usize,
+    pub out1: Collected<O1>,
+    pub out2: Collected<O2>,
+}
+impl<B: Block, I: Copy, O1: Copy, O2: Copy> Rig12<B, I, O1, O2> {
+    pub fn new<F: Fn(ReadStream<I>) -> (B, ReadStream<O1>, ReadStream<O2>)>(cap_in: usize, cap_out: usize, mk: &F) -> Self {
+        let (tx, r) = new_stream_sized::<I>(cap_in);
+        set_cap(cap_out);
+        let (b, rx1, rx2) = mk(r);
+        Self { b, tx, rx1, rx2, next: 0, out1: Collected::new(), out2: Collected::new() }
+    }
+    pub fn step(&mut self, input: &[I], tags: &[ATag], f: usize, d1: usize, d2: usize) -> Verdict {
+        feed(&self.tx, input, &mut self.next, f, tags);
+        drain(&self.rx1, d1, &mut self.out1);
+        drain(&self.rx2, d2, &mut self.out2);
+        work_once(&mut self.b)
+    }
+    pub fn flush(&mut self, input: &[I], tags: &[ATag], rounds: usize) {
+        let mut idle = false;
+        for _ in 0..rounds {
+            let a0 = activity();
+            let f = feed(&self.tx, input, &mut self.next, usize::MAX, tags);
+            let d1 = drain(&self.rx1, usize::MAX, &mut self.out1);
+            let d2 = drain(&self.rx2, usize::MAX, &mut self.out2);
+            let _ = work_once(&mut self.b);
+            idle = f == 0 && d1 == 0 && d2 == 0 && activity() == a0;
+        }
+        drain(&self.rx1, usize::MAX, &mut self.out1);
+        drain(&self.rx2, usize::MAX, &mut self.out2);
+        assert!(idle, "BOUND: block not quiescent after the flush rounds of this harness");
+    }
 }
